@@ -87,6 +87,7 @@ static void v_free(void *p) { if (p) { v_live--; free(p); } }
 /* the asynchronous TCP client on a scripted socket and clock (as in exec_c13.c / exec_c07.c) */
 #define VERIF_SIM_ONLY 1
 #include "exec_c13.c"
+#include <ksi/tlv_template.h>
 
 /* ---------------- helpers ---------------- */
 typedef struct {
@@ -176,6 +177,7 @@ cleanup:
 	return res;
 }
 
+KSI_IMPORT_TLV_TEMPLATE(KSI_PublicationRecord);
 static int su_blob(Env *e) { e->b[0] = unhex(e->w[0], &e->bl[0]); return 0; }
 
 static int walk(KSI_TLV *t, unsigned long long *h, size_t *cnt, int depth) {
@@ -279,6 +281,21 @@ static int run_ver(Env *e, char *out) {
 	return res;
 }
 
+/* the same under a policy that needs the publications file, which this context cannot fetch (no URL): rule results carry a status message */
+static int run_ver_pol(Env *e, char *out, const KSI_Policy *pol) {
+	int res; KSI_VerificationContext vc; KSI_PolicyVerificationResult *r = NULL;
+	res = KSI_VerificationContext_init(&vc, e->ctx); if (res != KSI_OK) return res;
+	vc.signature = e->sig; vc.documentHash = e->hsh;
+	res = KSI_SignatureVerifier_verify(pol, &vc, &r);
+	if (res == KSI_OK) snprintf(out, 64, "%d:%d", (int)r->finalResult.resultCode, (int)r->finalResult.errorCode);
+	KSI_PolicyVerificationResult_free(r);
+	vc.signature = NULL; vc.documentHash = NULL;
+	KSI_VerificationContext_clean(&vc);
+	return res;
+}
+static int run_verk(Env *e, char *out) { return run_ver_pol(e, out, KSI_VERIFICATION_POLICY_KEY_BASED); }
+static int run_verg(Env *e, char *out) { return run_ver_pol(e, out, KSI_VERIFICATION_POLICY_GENERAL); }
+
 static int su_areq(Env *e) {
 	e->b[0] = unhex(e->w[0], &e->bl[0]);
 	if (KSI_DataHash_fromImprint(e->ctx, e->b[0], e->bl[0], &e->hsh) != KSI_OK) return 1;
@@ -352,6 +369,31 @@ static int run_ext(Env *e, char *out) {
 cleanup:
 	if (res != KSI_OK && x != NULL) snprintf(out, 64, "RESULT-WITH-ERROR");
 	KSI_free(ser); KSI_Signature_free(x); KSI_Integer_free(to);
+	return res;
+}
+
+/* extension to a publication record: the record ends up in the result (KSI_Signature_replacePublicationRecord) */
+static int run_extp(Env *e, char *out) {
+	int res; KSI_Signature *x = NULL; unsigned char *ser = NULL; size_t sl = 0, pl; KSI_TLV *pt = NULL; KSI_PublicationRecord *pub = NULL;
+	unsigned char *pb = unhex(e->w[5], &pl);
+	e->ctx->requestCounter = 0; if (e->ctx->netProvider) e->ctx->netProvider->requestCount = 0;
+	res = KSI_TLV_parseBlob(e->ctx, pb, pl, &pt); if (res != KSI_OK) goto cleanup;
+	res = KSI_PublicationRecord_new(e->ctx, &pub); if (res != KSI_OK) goto cleanup;
+	res = KSI_TlvTemplate_extract(e->ctx, pub, pt, KSI_TLV_TEMPLATE(KSI_PublicationRecord)); if (res != KSI_OK) goto cleanup;
+	res = KSI_Signature_extend(e->sig, e->ctx, pub, &x); if (res != KSI_OK) goto cleanup;
+	res = KSI_Signature_serialize(x, &ser, &sl); if (res != KSI_OK) goto cleanup;
+	put_digest(out, fnv(FNV0, ser, sl), sl);
+cleanup:
+	if (res != KSI_OK && x != NULL) snprintf(out, 64, "RESULT-WITH-ERROR");
+	KSI_free(ser); KSI_Signature_free(x); KSI_PublicationRecord_free(pub); KSI_TLV_free(pt); free(pb);
+	return res;
+}
+/* the handle of an asynchronous extension request made from a signature */
+static int run_axh(Env *e, char *out) {
+	KSI_AsyncHandle *h = NULL; int res = KSI_AsyncExtendingHandle_new(e->ctx, e->sig, NULL, &h);
+	if (res == KSI_OK) put_digest(out, 1, 1);
+	if (res != KSI_OK && h != NULL) snprintf(out, 64, "RESULT-WITH-ERROR");
+	KSI_AsyncHandle_free(h);
 	return res;
 }
 
@@ -465,6 +507,14 @@ static int run_pubf(Env *e, char *out) {
 	if (b) { KSI_PublicationRecord_getPublishedData(b, &pd); KSI_PublicationData_getTime(pd, &pt); { unsigned long long u = KSI_Integer_getUInt64(pt); h = fnv(h, &u, sizeof(u)); } }
 	res = KSI_PublicationsFile_serialize(e->ctx, pf, &s, &sl); if (res != KSI_OK) goto cleanup;
 	h = fnv(h, s, sl);
+	{	/* certificate constraints of the file set, then replaced: a refused replacement leaves the first set in place */
+		KSI_CertConstraint c1[3], c2[4];
+		memset(c1, 0, sizeof(c1)); memset(c2, 0, sizeof(c2));
+		c1[0].oid = "1.2.840.113549.1.9.1"; c1[0].val = "first@example.com"; c1[1].oid = "2.5.4.10"; c1[1].val = "First";
+		c2[0].oid = "1.2.840.113549.1.9.1"; c2[0].val = "second@example.com"; c2[1].oid = "2.5.4.10"; c2[1].val = "Second"; c2[2].oid = "2.5.4.3"; c2[2].val = "CN";
+		res = KSI_PublicationsFile_setCertConstraints(pf, c1); if (res != KSI_OK) goto cleanup;
+		res = KSI_PublicationsFile_setCertConstraints(pf, c2); if (res != KSI_OK) goto cleanup;
+	}
 	put_digest(out, h, sl);
 cleanup:
 	KSI_free(s); KSI_PublicationRecord_free(b); KSI_Integer_free(t); KSI_PublicationsFile_free(pf);      /* (the latest record is lent, the nearest one is a reference) */
@@ -603,8 +653,8 @@ cleanup:
 
 static const struct op { const char *name; int minargs; int (*setup)(Env *); int (*run)(Env *, char *); } OPS[] = {
 	{ "lst", 1, su_none, run_lst }, { "tlvp", 1, su_blob, run_tlvp }, { "list", 1, su_none, run_list }, { "tlv", 1, su_blob, run_tlv }, { "el", 1, su_blob, run_el }, { "sig", 1, su_blob, run_sig },
-	{ "ver", 2, su_ver, run_ver }, { "areq", 3, su_areq, run_areq }, { "ereq", 3, su_ereq, run_ereq }, { "sign", 5, su_sign, run_sign },
-	{ "ext", 5, su_ext, run_ext }, { "tree", 3, su_none, run_tree }, { "build", 2, su_sig, run_build }, { "pubf", 2, su_blob, run_pubf },
+	{ "ver", 2, su_ver, run_ver }, { "verk", 2, su_ver, run_verk }, { "verg", 2, su_ver, run_verg }, { "areq", 3, su_areq, run_areq }, { "ereq", 3, su_ereq, run_ereq }, { "sign", 5, su_sign, run_sign },
+	{ "ext", 5, su_ext, run_ext }, { "extp", 6, su_ext, run_extp }, { "axh", 1, su_sig, run_axh }, { "tree", 3, su_none, run_tree }, { "build", 2, su_sig, run_build }, { "pubf", 2, su_blob, run_pubf },
 	{ "pubs", 1, su_none, run_pubs }, { "hmac", 3, su_hmac, run_hmac }, { "async", 4, su_async, run_async }, { "ha", 4, su_async, run_ha }, { "bsig", 3, su_none, run_bsig }, { "vcal", 5, su_ext, run_vcal }, { "parts", 1, su_sig, run_parts },
 };
 
